@@ -80,6 +80,7 @@ MUTANTS = [
     ('C18-natural-sort-dropped', 'history/files.py', "if n.startswith( self.name )), key=natural ):", "if n.startswith( self.name ))):"),
     ('C18-out-of-order-accept', 'history/files.py', "                        if self._ts is None or ts >= self._ts:", "                        if self._ts is None or ts > self._ts:"),
     ('C19-reach-off-by-one', 'remote/plc_modbus.py', "                 and address < base + length + ( reach or 1 )):", "                 and address <= base + length + ( reach or 1 )):"),
+    ('C19-poller-creates-entries', 'remote/plc_modbus.py', "                        self._store( address, value, create=False ) # Handle", "                        self._store( address, value, create=True ) # Handle"),
     ('C19-bank-test-dropped', 'remote/plc_modbus.py', "            if ( address // 10000 == base // 10000\n", "            if ( address // 10000 >= base // 10000\n"),
     ('C20-length-from-text', 'server/tnetstrings.py', "    siz = ('%d' % len(out)).encode('ascii')", "    siz = ('%d' % len(data if type(data) is str else out)).encode('ascii')"),
     ('C20-bytes-payload-stripped', 'server/tnet.py', "                data[ours]	= src\n            elif tntype == b'$'[0]:", "                data[ours]	= src.rstrip( b'\\x00' )\n            elif tntype == b'$'[0]:"),
